@@ -22,7 +22,7 @@ WIDTH = {"pub": 256, "sub": 256, "topic": 65536, "writer": 65536, "reader": 6553
 # a creation that crashes at the counter rail, a participant that cannot be deleted because of a content-filtered
 # topic, a topic deleted while used through a content-filtered topic are plain violations now
 # (the causes of D33 / D33b are no longer emitted: fixes/D33.patch, fixes/D33b.patch; such answers are plain violations)
-CREATE_OPS = ("participant", "publisher", "subscriber", "topic", "cft", "writer", "reader")
+CREATE_OPS = ("participant", "publisher", "subscriber", "topic", "find-topic", "cft", "writer", "reader")
 INST_OPS = ("register", "unregister", "dispose", "lookup", "write")
 
 
@@ -201,6 +201,27 @@ class Shadow:
         if self.expect("C36", got, "ok", f"create topic {name}"):
             parent.incs["topic"] = parent.incs.get("topic", 0) + 1
             self.add(name, Ent("topic", part=parent, tname=tname, keyed=ty in ("ki", "kb"), ty=ty), got.split()[1])
+
+    def op_find_topic(self, a, got):
+        """find_topic: a live local topic of that name -> the same entity (same handle, nothing new); otherwise a topic
+        discovered from some participant -> a NEW local Topic entity (tracked like a created one); otherwise Timeout"""
+        name, parent, tname, ty = a[0], self.names.get(a[1]), a[2], a[3]
+        if parent is None or parent.kind != "participant":
+            return
+        if not parent.alive:
+            self.expect("C36", got, "err:AlreadyDeleted", f"find_topic on deleted participant {a[1]}")
+            return
+        if not is_ok(got):
+            return          # Timeout (nothing of that name known / counter exhausted): creates nothing
+        h = got.split()[1]
+        local = self.topic_alive(parent, tname)
+        if local is not None:
+            if local.handle != h:
+                self.v("C35", f"find_topic {name}: the live local topic {tname} has handle {local.handle}, find_topic answered {h}", None)
+            self.names[name] = local
+            return
+        parent.incs["topic"] = parent.incs.get("topic", 0) + 1
+        self.add(name, Ent("topic", part=parent, tname=tname, keyed=ty in ("ki", "kb"), ty=ty), h)
 
     def op_cft(self, a, got):
         name, tp, cname = a[0], self.names.get(a[2]), a[3]
@@ -481,7 +502,7 @@ class Profile:
 DEFAULT_W = {"publisher": 8, "subscriber": 6, "topic": 8, "writer": 10, "reader": 7, "cft": 2, "delete": 18,
              "delete_from": 4, "delete_contained": 2, "enable": 4, "probe": 10, "handle": 2, "inst": 10, "participant": 1}
 KEYS = [0, 1, 2, 2, 3, -1, 2147483647, -2147483648]
-TYPE_OF_NAME = {"A": "ki", "B": "kb", "C": "ni", "D": "nb"}
+TYPE_OF_NAME = {"A": "ki", "B": "kb", "C": "ni", "D": "nb", "T1": "ki", "T2": "kb", "T3": "ni"}
 VALUES = ["00", "11", "42"]     # valid both as an i32 value and as hex bytes
 
 
@@ -639,6 +660,44 @@ def gen_case(r, prof):
                     key = r.choice(KEYS)
                     lines.append(f"write {w} {key} {r.choice(VALUES)}" if o == "write" else f"{o} {w} {key}")
     return Case(lines, {})
+
+
+def find_case(r):
+    """C35 with find_topic: a second participant announces 1-2 topics; on the first one created topics, found topics
+    (a found topic is a NEW local Topic entity taking a value of the same counter) and deletions are interleaved.
+    All participants default-enabled, one domain (what the Lean driver's discovery bookkeeping assumes)."""
+    lines = ["participant P", "participant Q"]
+    remote = r.shuffle(["T1", "T2", "T3"])[: r.range(1, 2)]
+    for i, tn in enumerate(remote):
+        lines.append(f"topic q{i} Q {tn} {TYPE_OF_NAME[tn]}")
+    lines.append("advance 100000000")
+    local, found, n = [], [], 0
+    for _ in range(r.range(5, 16)):
+        n += 1
+        c = r.below(100)
+        if c < 30:
+            tn = r.choice(["A", "B", "C", "D"])
+            lines.append(f"topic t{n} P {tn} {TYPE_OF_NAME[tn]}")
+            local.append(f"t{n}")
+        elif c < 62:
+            tn = r.choice(remote * 3 + ["A", "NOPE"])
+            who = "P" if r.chance(4, 5) else "Q"
+            lines.append(f"find-topic f{n} {who} {tn} {TYPE_OF_NAME.get(tn, 'ki')}" + (" 1000000" if r.chance(1, 2) else ""))
+            found.append(f"f{n}")
+        elif c < 80 and (local or found):
+            lines.append(f"delete {r.choice(local + found + found)}")
+        elif c < 88 and (local or found):
+            lines.append(f"handle {r.choice(local + found)}")
+        elif c < 94 and (local or found):
+            lines.append(f"probe {r.choice(local + found)}")
+        elif c < 97:
+            lines.append(f"delete {r.choice(['q0', 'Q'])}")
+        else:
+            lines.append("participant R")
+            lines.append(f"find-topic fr{n} R {r.choice(remote)} ki")
+    for x in (local + found)[-4:]:
+        lines.append(f"handle {x}")
+    return Case(lines, {"family": "find"})
 
 
 def inst_case(r):
